@@ -73,7 +73,7 @@ impl BytesSerializable for DeleteConsumerOffset {
     }
 
     fn from_bytes(bytes: Bytes) -> Result<DeleteConsumerOffset, IggyError> {
-        if bytes.len() < 15 {
+        if bytes.len() < 14 {
             return Err(IggyError::InvalidCommand);
         }
 
